@@ -32,6 +32,25 @@ var c12FineConditioned = func() bool {
 	return false
 }()
 
+// c12FineCorpus: minimised inputs on which the pinned code violated C12 (kept as regression cases, drawn first in
+// every run of the InstreamFineSediment generator; see /verif/fixes/fine-sediment-*.diff):
+//
+//	0: bank-full flow 0 and 1 kg/s of reach-local mass for one day into a wet reach — the pre-fix code routed only
+//	   upstream + lateral mass and the 86 400 kg vanished (loadDownstream 0, stored 0);
+//	1: outflow == bankFullFlow (10 m³/s) on a reach without floodplain (area 0) — the pre-fix code computed
+//	   0/0 in floodPlainDepositionEmperical and every output and the stored mass were NaN from then on.
+var c12FineCorpus = []struct {
+	P  []float64
+	In [][]float64
+}{
+	{[]float64{0, 1e-4, 1e6, 20, 5000, 1e-3, 2, 0.5, 1.5, 0.04, 1e-4, 2e-4, 86400},
+		[][]float64{{0}, {0}, {1}, {1000}, {1}}},
+	{[]float64{10, 1e-4, 0, 20, 5000, 1e-3, 2, 0.5, 1.5, 0.04, 1e-4, 2e-4, 86400},
+		[][]float64{{1, 1}, {0, 0}, {0, 0}, {1000, 1000}, {10, 5}}},
+}
+var c12FineDrawn = 0    // number of InstreamFineSediment cases drawn so far
+var c12FineCurrent = -1 // index into c12FineCorpus of the case being drawn, or -1
+
 // stash between the Inputs and the States draw of one InstreamFineSediment case (drawCall draws them in that order)
 var c12FineStash struct {
 	allZero   bool
@@ -151,6 +170,14 @@ func init() {
 
 	regModel(&ModelGen{Name: "InstreamFineSediment",
 		Params: func(r *Rng) []float64 {
+			c12FineCurrent = -1
+			if c12FineDrawn < len(c12FineCorpus) {
+				c12FineCurrent = c12FineDrawn
+			}
+			c12FineDrawn++
+			if c12FineCurrent >= 0 {
+				return append([]float64{}, c12FineCorpus[c12FineCurrent].P...)
+			}
 			bff := r.LogUniform(0.05, 200)
 			switch r.Intn(10) {
 			case 0, 1: // bank-full flow 0: lumped routing
@@ -187,6 +214,13 @@ func init() {
 			return []float64{bff, vfl, fpa, w, l, slope, bh, prop, dens, n, vs, vr, drawDt(r)}
 		},
 		Inputs: func(r *Rng, T int, p []float64) [][]float64 {
+			if c12FineCurrent >= 0 {
+				in := make([][]float64, 5)
+				for i, s := range c12FineCorpus[c12FineCurrent].In {
+					in[i] = append([]float64{}, s...)
+				}
+				return in
+			}
 			dt := p[12]
 			flow, vol := flowVolume(r, T, dt)
 			if p[0] > 1e-8 {
@@ -256,6 +290,9 @@ func init() {
 			return [][]float64{mk(), mk(), mk(), vol, flow}
 		},
 		States: func(r *Rng, p []float64) []float64 {
+			if c12FineCurrent >= 0 {
+				return []float64{0, 0}
+			}
 			maxStorage := p[7] * p[6] * (p[3] * p[4]) * p[8] * 1000
 			cs := 0.0
 			switch r.Intn(5) {
